@@ -104,8 +104,6 @@ def assocSet {α} (l : List (String × α)) (k : String) (v : α) : List (String
   (k, v) :: l.filter (fun e => e.1 != k)
 def assocDel {α} (l : List (String × α)) (k : String) : List (String × α) := l.filter (fun e => e.1 != k)
 
-def zeroDirty : Dirty := fun _ _ => 0
-
 def parseROp : List String → Option ROp
   | ["next", n] => n.toInt?.map .next
   | ["peek", n] => n.toInt?.map .peek
@@ -134,15 +132,13 @@ def parseKVs (t : String) : Option (List (Bytes × Bytes)) :=
       pure ((k, v) :: r)
     | _ => none) (some [])
 
+def zeroDirty : Dirty := fun _ _ => 0
+
 /-- `tth rt`: Encode {seq, proto 0, one int entry, one string entry} + total length + Flush -/
 def tthModel (seq : Int) (ik : Nat) (iv sk sv : Bytes) : String :=
-  let w0 : TTH.W := { items := [], n := 0, broken := false, dirt := fun _ _ => 0 }
   let p : TTH.EncParam := { flags := 0, seq := seq, proto := 0, intKV := [(ik, iv)], strKV := [(sk, sv)] }
-  match TTH.encode p w0 with
-  | .ok r =>
-    match TTH.setTotalLen r.2 r.1 (r.2.bytes.length - 4) with
-    | .ok w => s!"ok {toHex w.bytes} {seq} {toHex iv} {toHex sv}"
-    | _ => "err enc"
+  match (kTTH.step zeroDirty () (.enc p)).2.1 with
+  | .enc (.ok frame) => s!"ok {toHex frame} {seq} {toHex iv} {toHex sv}"
   | _ => "err enc"
 
 /-- model column for one line; returns the new instance table -/
